@@ -653,15 +653,17 @@ func (e *Engine) Run() {
 	}
 	e.checkpoint("final")
 	e.collectAllocViolations()
+	idleUnfreed := false
 	if e.db.A != nil && !e.failed() {
 		// idle database: nothing unlinked may remain unfreed (C17 at nitro level)
 		w := Walk(e.db.N.VerifStore(), nitroInsCmp(o.KV), nitro.ItemSize, 1<<30)
 		wantLive := 2*w.Level0Linked + 2
 		if got := e.db.A.LiveCount(); got != wantLive {
 			e.problem("C17", "idle-unfreed", "idle database: %d allocator blocks are live but the structure accounts for %d (2 per linked node + 2 sentinels): unlinked nodes are waiting for a future flush", got, wantLive)
+			idleUnfreed = true
 		}
 	}
-	if e.failed() {
+	if e.failed() && !idleUnfreed {
 		return
 	}
 	if e.db.A != nil {
